@@ -209,6 +209,33 @@ pub fn search(tier: &str, seed: u64, s: &mut Search) {
         }
         compare(s, "stroke-extent", &svg, &svg, &iso, &o, &mut rng);
     }
+    // ---- groups that cannot be rendered or have no children of their own next to ordinary siblings: a group whose layer
+    // lies wholly outside the 5x5-canvas box (its layer cannot be made) must not take its later siblings with it, and a
+    // childless group with a filter that paints (feFlood, feTurbulence) belongs to its ancestors' layer boxes
+    let nf = (if tier == "thorough" { 300 } else { 40 }) * mult;
+    for i in 0..nf {
+        let (w, h) = (rng.range(80, 120) as u32, rng.range(80, 120) as u32);
+        let far = rng.range(2000, 6000);
+        let special = match i % 3 {
+            0 => format!(r#"<g><rect x="-{far}" y="10" width="30" height="30" fill="red"/></g>"#),
+            1 => r##"<g filter="url(#fl)"/>"##.to_string(),
+            _ => r##"<g><g filter="url(#tb)"/></g>"##.to_string(),
+        };
+        let sib = format!(r##"<circle cx="{}" cy="{}" r="{}" fill="#06c"/><rect x="{}" y="{}" width="20" height="14" fill="#fc0" fill-opacity="0.7"/>"##, rng.range(20, 60), rng.range(20, 60), rng.range(8, 20), rng.range(10, 60), rng.range(10, 60));
+        let order = if rng.chance(1, 2) { format!("{special}{sib}") } else { format!("{sib}{special}") };
+        let svg = format!(
+            r##"<svg xmlns="http://www.w3.org/2000/svg" width="{w}" height="{h}"><defs><filter id="fl" filterUnits="userSpaceOnUse" x="{}" y="{}" width="40" height="30"><feFlood flood-color="#0a0" flood-opacity="0.8"/></filter><filter id="tb" filterUnits="userSpaceOnUse" x="5" y="{}" width="50" height="20"><feTurbulence baseFrequency="0.08" numOctaves="1"/></filter></defs><g><g transform="translate(3 2)">{order}</g></g></svg>"##,
+            rng.range(40, 70), rng.range(40, 70), rng.range(50, 80)
+        );
+        // (documents without a filter user carry no filter definitions: the comparison moves documents with filters so
+        // that their layers start at positive coordinates, which would bring the far-away group onto the canvas)
+        let svg = if i % 3 == 0 { format!("{}<defs/>{}", &svg[..svg.find("<defs>").unwrap()], &svg[svg.find("</defs>").unwrap() + 7..]) } else { svg };
+        let (iso, n) = inject_isolation(&svg, &mut rng, i % 2 == 0);
+        if n == 0 {
+            continue;
+        }
+        compare(s, "unrenderable-or-childless-groups", &svg, &svg, &iso, &o, &mut rng);
+    }
     // ---- SVG images whose content reaches beyond their own size: what is visible must not depend on whether an
     // ancestor is rendered through a layer (which is sized by the image's box)
     let nio = (if tier == "thorough" { 300 } else { 40 }) * mult;
